@@ -179,3 +179,52 @@ def solver_function(prog, role):
             raise AnalysisError('expected one steady-state search function, found %s' % [f.qualname for f in out])
         return out[0]
     raise AnalysisError('unknown role ' + role)
+
+
+def decoration_env_stores(sw):
+    """stores into the evaluation environment keyed by a loop whose collection derives from .Decoration:
+    returns [(node, ok, why)] - ok iff the stored value is the value just evaluated from the variable's own equation"""
+    from .dataflow import target_names
+    f = sw.f.node
+    envs = set()
+    for ev in eval_calls(f):
+        if len(ev.args) > 2 and isinstance(ev.args[2], ast.Name):
+            envs.add(ev.args[2].id)
+    out = []
+
+    def deco_names():
+        names = set()
+        changed = True
+        while changed:
+            changed = False
+            for n in ast.walk(f):
+                if isinstance(n, ast.For):
+                    src = {x.attr for x in ast.walk(n.iter) if isinstance(x, ast.Attribute)} | {x.id for x in ast.walk(n.iter) if isinstance(x, ast.Name)}
+                    if 'Decoration' in src or src & names:
+                        for c in ast.walk(n):
+                            if isinstance(c, ast.Call) and call_name(c) in ('append', 'extend') and isinstance(c.func.value, ast.Name) \
+                                    and c.func.value.id not in names:
+                                names.add(c.func.value.id)
+                                changed = True
+                if isinstance(n, ast.Assign) and isinstance(n.targets[0], ast.Name) and n.targets[0].id not in names:
+                    src = {x.attr for x in ast.walk(n.value) if isinstance(x, ast.Attribute)} | {x.id for x in ast.walk(n.value) if isinstance(x, ast.Name)}
+                    if 'Decoration' in src or src & names:
+                        names.add(n.targets[0].id)
+                        changed = True
+        return names
+    dn = deco_names()
+    for loop in [n for n in ast.walk(f) if isinstance(n, ast.For)]:
+        src = {x.attr for x in ast.walk(loop.iter) if isinstance(x, ast.Attribute)} | {x.id for x in ast.walk(loop.iter) if isinstance(x, ast.Name)}
+        if not ('Decoration' in src or src & dn):
+            continue
+        tv = target_names(loop.target)
+        evald = {t.id for a in ast.walk(loop) if isinstance(a, ast.Assign) and isinstance(a.value, ast.Call) and
+                 isinstance(a.value.func, ast.Name) and a.value.func.id == 'eval' for t in a.targets if isinstance(t, ast.Name)}
+        for a in ast.walk(loop):
+            if isinstance(a, ast.Assign):
+                for t in a.targets:
+                    if isinstance(t, ast.Subscript) and isinstance(t.value, ast.Name) and t.value.id in envs:
+                        ok = isinstance(a.value, ast.Name) and a.value.id in evald or \
+                            (isinstance(a.value, ast.Call) and isinstance(a.value.func, ast.Name) and a.value.func.id == 'eval')
+                        out.append((a, ok, 'environment entry of a decorative variable is %s' % unparse(a.value)))
+    return out
